@@ -344,7 +344,7 @@ def run_check(prop: str, tier: str, replay: str | None) -> int:
         "frames written by the client are identified against payloads produced by the package's own encoders (codec correctness is C03/C04's subject)",
     ]
     with common.Lock():
-        proved = ck.prove()
+        proved = ck.prove(also=["C02api"] if prop == "C02" else None)
         if not proved:
             ck.violation("proof", {"theorem_file": f"coq/props/{prop}.v", "failed_at": getattr(ck, "failed_at", "?"),
                                    "log_tail": getattr(ck, "proof_log", "")[-1500:]}, found_input=False)
@@ -443,6 +443,9 @@ def run_check(prop: str, tier: str, replay: str | None) -> int:
         else:
             replay_doc["no_longer_checks"] = f"correspondence Sock.v (theorems of coq/props/{prop}.v) vs AirTouchSocket"
             ck.violation("correspondence", replay_doc, found_input=False)
+    if prop == "C02":
+        from . import check_policy
+        check_policy.run(ck, tier)
     ck.sample({"script": sockcorr.fmt(work[0][1][min(50, len(work[0][1]) - 1)])})
     ck.sample({"script": sockcorr.fmt(work[-1][1][-1])[:600]})
     return ck.finish()
